@@ -82,8 +82,10 @@ def enc_prim(out: Bits, dt, v):
             v = min(max(v, lo), hi)
         out.put(v & ((1 << n) - 1), n)
     elif isinstance(dt, pydsdl.FloatType):
-        # v is the bit pattern of the C member (float for 16/32, double for 64)
-        if dt.bit_length == 64:
+        # v is the bit pattern of the C member (float for 16/32, double for 64); ("raw", wire pattern) from the Python leg
+        if isinstance(v, tuple) and v[0] == "raw":
+            out.put(v[1], dt.bit_length)
+        elif dt.bit_length == 64:
             out.put(v, 64)
         elif dt.bit_length == 32:
             x = struct.unpack("<f", struct.pack("<I", v))[0]
@@ -126,6 +128,8 @@ def enc(out: Bits, dt, v, top=False):
                 payload = payload[:DELIM_RNG.randint(0, len(payload) - 1)]
             elif mode == "longer":  # data from a newer revision: surplus bytes the receiver must skip
                 payload = payload + bytes(DELIM_RNG.getrandbits(8) for _ in range(DELIM_RNG.randint(1, 3)))
+            elif mode == "overlong":  # a header beyond the nested type's extent: still only "surplus bytes to skip" per the specification
+                payload = payload + bytes(DELIM_RNG.getrandbits(8) for _ in range(max(0, dt.extent // 8 - len(payload)) + DELIM_RNG.randint(1, 4)))
             out.put(len(payload), 32)
             for byte in payload:
                 out.put(byte, 8)
@@ -690,8 +694,8 @@ def witness_cpp(t, workdir: pathlib.Path, std: str, direction: str, n_cases: int
         exp = []
         for i in range(n_cases):
             v = gen_composite(rng, t, "zero" if i == 0 else "ones" if i == 1 else "rand")
-            DELIM_MODE[0] = ("exact", "exact", "shorter", "longer")[i % 4] if i > 1 else "exact"
-            erc, eb = serialize_ref(t, v, mbytes + 8)
+            DELIM_MODE[0] = ("exact", "exact", "shorter", "longer", "overlong")[i % 5] if i > 1 else "exact"
+            erc, eb = serialize_ref(t, v, mbytes + 64)
             DELIM_MODE[0] = "exact"
             data = eb if erc == 0 else bytes(rng.getrandbits(8) for _ in range(mbytes))
             kind = (i // 4) % 4
